@@ -61,7 +61,162 @@ Definition is_const (p : poly) : bool := match coeffs p with [] => true | _ => f
 
 Definition vars (p : poly) : list var := map fst (coeffs p).
 
-(* LinearPolynomial._wait, the substitution part: every variable whose wait() succeeds is replaced
+(* ---------------------------------------------------------------------------------------------
+   LinearPolynomial._wait / _substitute_known_variables (pdpy11/deferred.py).
+
+   What the variables are at the moment of the call is a [world]:
+     settled  x = Some v : x.wait() returns v (a Promise that has been settled, a Deferred whose
+                           function has run); v is a polynomial (an int is a constant polynomial)
+                           or another deferred object (VVar: "a value defined as another value")
+     awaiting x          : x.is_awaiting -- x is being computed right now, x.wait() is DeferredCycle
+     latent   x = Some v : x is a Deferred that cannot be computed while speculating (its function
+                           calls not_ready(), e.g. a symbol exported by another file) but yields v
+                           when it is waited for at depth 0, and is settled from then on *)
+Inductive value := VPoly (p : poly) | VVar (y : var).
+
+Record world := World { settled : list (var * value); awaiting : list var; latent : list (var * value) }.
+
+Definition memv (x : var) (l : list var) : bool := existsb (Z.eqb x) l.
+Fixpoint lookupv (s : list (var * value)) (x : var) : option value :=
+  match s with
+  | [] => None
+  | (k, v) :: r => if k =? x then Some v else lookupv r x
+  end.
+
+(* key.wait() inside `with try_compute` *)
+Definition try_wait (w : world) (k : var) : option value :=
+  if memv k (awaiting w) then None else lookupv (settled w) k.
+
+Inductive endp := EVar (y : var) | EPoly (p : poly).
+
+(* the `while` loop of expand(): follow a chain of values defined as other values; stop at one that
+   is being computed or is already being expanded.  Result: (computed, where the chain stopped). *)
+Fixpoint follow (fuel : nat) (w : world) (exp : list var) (v : value) : bool * endp :=
+  match v with
+  | VPoly p => (true, EPoly p)
+  | VVar y =>
+      if memv y (awaiting w) || memv y exp then (true, EVar y)
+      else match fuel with
+           | O => (true, EVar y)
+           | S f => match lookupv (settled w) y with
+                    | None => (false, EVar y)
+                    | Some v' => follow f w (y :: exp) v'
+                    end
+           end
+  end.
+
+(* key.get_current_best_estimate() of where the chain stopped (one step, as in the code) *)
+Definition estimate_end (w : world) (e : endp) : endp :=
+  match e with
+  | EPoly p => EPoly p
+  | EVar y => match lookupv (settled w) y with
+              | Some (VPoly p) => EPoly p
+              | Some (VVar z) => EVar z
+              | None => EVar y
+              end
+  end.
+
+(* expand(key, value): (terms appended to new_coeffs, added to the constant, not_ready_keys) *)
+Fixpoint expand (fuel : nat) (w : world) (exp : list var) (k : var) (c : Z)
+  : list (var * Z) * Z * list var :=
+  if memv k exp then ([(k, c)], 0, []) else
+  match fuel with
+  | O => ([(k, c)], 0, [])
+  | S f =>
+      let '(computed, e) := match try_wait w k with
+                            | None => (false, EVar k)
+                            | Some v => follow f w exp v
+                            end in
+      let nr := if computed then [] else match e with EVar y => [y] | EPoly _ => [k] end in
+      match estimate_end w e with
+      | EVar z => ([(z, c)], 0, nr)
+      | EPoly p =>
+          let '(ts, c0, nr') :=
+            (fix go (l : list (var * Z)) : list (var * Z) * Z * list var :=
+               match l with
+               | [] => ([], 0, [])
+               | (k1, v1) :: r =>
+                   let '(t1, c1, n1) := expand f w (k :: exp) k1 (v1 * c) in
+                   let '(t2, c2, n2) := go r in
+                   (t1 ++ t2, c1 + c2, n1 ++ n2)
+               end) (coeffs p) in
+          (ts, c0 + const p * c, nr ++ nr')
+      end
+  end.
+
+Definition sub_fuel : nat := 64.
+
+(* _substitute_known_variables: the new polynomial and not_ready_keys *)
+Definition substitute (w : world) (p : poly) : poly * list var :=
+  let '(ts, c0, nr) :=
+    (fix go (l : list (var * Z)) : list (var * Z) * Z * list var :=
+       match l with
+       | [] => ([], 0, [])
+       | (k1, v1) :: r =>
+           let '(t1, c1, n1) := expand sub_fuel w [] k1 v1 in
+           let '(t2, c2, n2) := go r in
+           (t1 ++ t2, c1 + c2, n1 ++ n2)
+       end) (coeffs p) in
+  (mk ts (const p + c0), nr).
+
+(* key.wait() outside try_compute (speculating = false) or under an outer one (speculating = true):
+   None = it raises (DeferredCycle, NotReadyError, or the plain "not ready" exception) *)
+Definition real_wait (speculating : bool) (w : world) (k : var) : option (value * world) :=
+  if memv k (awaiting w) then None else
+  match lookupv (settled w) k with
+  | Some v => Some (v, w)
+  | None => if speculating then None else
+            match lookupv (latent w) k with
+            | Some v => Some (v, World ((k, v) :: settled w) (awaiting w) (latent w))
+            | None => None
+            end
+  end.
+
+(* `for key in not_ready_keys: if not key.is_awaiting: key.wait()` at depth 0 *)
+Fixpoint wait_all (w : world) (ks : list var) : world * bool :=
+  match ks with
+  | [] => (w, true)
+  | k :: r => if memv k (awaiting w) then wait_all w r
+              else match real_wait false w k with
+                   | Some (_, w') => wait_all w' r
+                   | None => (w, false)      (* it raises; what was settled before stays settled *)
+                   end
+  end.
+
+Fixpoint list_eqbv (a b : list var) : bool :=
+  match a, b with
+  | [], [] => true
+  | x :: xs, y :: ys => (x =? y) && list_eqbv xs ys
+  | _, _ => false
+  end.
+
+(* the `while not_ready_keys` loop: (polynomial, world, raised) *)
+Fixpoint settle_loop (fuel : nat) (w : world) (p : poly) (nr : list var) : poly * world * bool :=
+  match fuel with
+  | O => (p, w, false)
+  | S f =>
+      let '(w', ok) := wait_all w nr in
+      if negb ok then (p, w', true) else
+      let '(p', nr') := substitute w' p in
+      if list_eqbv nr' nr then (p', w', false) else
+      match nr' with [] => (p', w', false) | _ => settle_loop f w' p' nr' end
+  end.
+
+(* sum(key.wait() * value ...) + constant_term, when every term is a number *)
+Fixpoint sum_terms (speculating : bool) (w : world) (l : list (var * Z)) (acc : Z) : option Z * world :=
+  match l with
+  | [] => (Some acc, w)
+  | (k, c) :: r =>
+      match real_wait speculating w k with
+      | None => (None, w)
+      | Some (VPoly q, w') => if is_const q then sum_terms speculating w' r (acc + const q * c)
+                              else (None, snd (sum_terms speculating w' r 0))
+      | Some (VVar _, w') => (None, snd (sum_terms speculating w' r 0))
+      end
+  end.
+
+(* the one-level substitution of the code before commit 0fa6448 (kept for Props/C12_findings.v) *)
+(* every variable whose wait() succeeds is replaced
    by its value (an int, or a polynomial whose terms are spliced in, scaled); the others stay.
    sigma x = None      : x.wait() raised NotReadyError / DeferredCycle inside try_compute
    sigma x = Some q    : x.wait() returned q (an int is [pconst]) *)
